@@ -288,7 +288,7 @@ def observe_computed(job, computed, rowmaps):
     res = {}
     for asset, cd in computed.items():
         h = job["assets"][asset]
-        Q = lcm_q(h)
+        Q = job["conc"].get("Q") or lcm_q(h)
         al = Alpha(job["conc"]["U"], job["conc"]["P"], Q)
         fee_parents = [p for p, x in enumerate(h) if x["cls"] == "in" and x["fee"] > 0]
         idmap = {}
@@ -304,6 +304,10 @@ def observe_computed(job, computed, rowmaps):
                 else:
                     tt, _o, _k = _tsobs(t.timestamp)
                     cand = [p for p in free if h[p]["t"] == tt and acct_names(h[p]["a1"]) == (t.exchange, t.holder) and h[p]["fee"] == al.amt(t.crypto_fee)]
+                    # the artificial disposal carries the unique id of its acquisition (the concretiser wrote t<n> there)
+                    uid = str(getattr(t, "unique_id", "") or "")
+                    if uid.startswith("t") and uid[1:].isdigit() and int(uid[1:]) - 1 in cand:
+                        cand = [int(uid[1:]) - 1]
                     if cand:
                         free.remove(cand[0])
                         idmap[t.internal_id] = len(h) + 1 + fee_parents.index(cand[0])
